@@ -53,7 +53,7 @@ ASSUMPTIONS = [
     "per-core field accesses address core 0 of the chip and select the core "
     "through the address",
 ]
-FLOORS = {"method_call_checked": 500, "twin_compared": 400,
+FLOORS = {"discovered_connection_tries": 60, "discovery_from_a_named_chip": 10, "sibling_controller": 10, "signal_by_name": 30, "state_by_name": 20, "led_action": 10, "application_object_reused": 5, "method_call_checked": 500, "twin_compared": 400,
           "missing_argument_rejected": 40, "stack_restored": 300,
           "exception_exit": 60, "application_stop_signal": 20,
           "connection_choice": 300, "bmp_call_checked": 80}
@@ -981,7 +981,9 @@ def run_connections(case, ctx):
         (e, _) = c19.board_of(xy[0], xy[1], root[0], root[1])
         c.local_eth = (e[0] % w, e[1] % h)
     m.finalise()
-    r = M.Rig(m)
+    tries = 2 + (w // 4 + root[0]) % 4
+    tmo = [0.5, 0.11, 1.3][(h // 4 + root[1] // 4) % 3]
+    r = M.Rig(m, n_tries=tries, timeout=tmo)
     cut = set()
     for k, xy in enumerate(eths):
         if k in case.get("unreachable", []) and xy != root:
@@ -990,7 +992,24 @@ def run_connections(case, ctx):
         if xy not in cut:
             m.attach(r.net, ip, xy)
     mc = r.mc
-    n = mc.discover_connections()
+    # the chip asked for the list of live chips is the caller's choice (by
+    # argument or from an enclosing block); it is not the machine's root
+    qx, qy = case["targets"][0] if case["targets"] else (0, 0)
+    qx, qy = qx % w, qy % h
+    form = (qx * 7 + qy * 3 + w // 4 + root[1] // 4) % 4
+    if form == 1:
+        ctx.hit("discovery_from_a_named_chip")
+        n = mc.discover_connections(qx, qy)
+    elif form == 2:
+        ctx.hit("discovery_from_a_named_chip")
+        with mc(x=qx, y=qy):
+            n = mc.discover_connections()
+    elif form == 3:
+        n = mc.discover_connections(y=255, x=255)
+        check(mc.discover_connections() == 0, "connections-discovered",
+              "a second discovery reports new connections")
+    else:
+        n = mc.discover_connections()
     up = {xy for xy in eths if m.chips[xy].eth_up and xy not in cut}
     check(set(k for k in mc.connections if k is not None) == up - (
         set() if True else set()), "connections-discovered",
@@ -1011,6 +1030,29 @@ def run_connections(case, ctx):
                                    "connected as %s" % ips.get(e)
                                    if e in up else "not connected"),
               dims=(w, h), root=root)
+    # the connections found by discovery belong to THIS controller: they
+    # give up after its number of tries, spaced by its timeout
+    for (x, y) in case["targets"][:3]:
+        x, y = x % w, y % h
+        r.net.plan = lambda net, sock, data, n: [("lost",)]
+        mark = len(r.net.log)
+        try:
+            mc.read(0x60000000, 4, x, y, 0)
+            check(False, "oracle", "a silent machine answered")
+        except r.sc.SCPError:
+            pass
+        finally:
+            r.net.plan = None
+        times = [e[1] for e in r.net.log[mark:] if e[0] == "send"]
+        ctx.hit("discovered_connection_tries")
+        check(len(times) == tries and
+              all(b - a >= tmo - 1e-6 for a, b in zip(times, times[1:])),
+              "discovered-connection-ignores-controller-settings",
+              "an unanswered command for chip %r was sent %d times %r apart; "
+              "the controller was made with n_tries=%d, timeout=%r" %
+              ((x, y), len(times),
+               [round(b - a, 3) for a, b in zip(times, times[1:])], tries,
+               tmo), dims=(w, h), root=root)
     if len(up) >= 2:
         ctx.mark_nontrivial()
 
